@@ -11,7 +11,7 @@ for d in sorted(glob.glob('/verif/seeded/*')):
         continue
     det = ''
     if os.path.exists(d + '/detection.txt'):
-        lines = [l.strip() for l in open(d + '/detection.txt') if l.strip()]
+        lines = [l.strip() for l in open(d + '/detection.txt') if l.strip() and not l.startswith('earlier:')]
         if lines:
             l = lines[-1]
             mm = re.search(r'(C\d+) tier=(\w+) exit=(\d+) (\d+) violations; first:\s*(?:witness: )?(.*)', l)
@@ -20,5 +20,7 @@ for d in sorted(glob.glob('/verif/seeded/*')):
                 det = ('caught by %s (%s): %s' % (prop, tier, w[:140].replace('|', '/'))) if ex == '1' else ('NOT reported by %s (%s)' % (prop, tier))
             else:
                 det = l[:160].replace('|', '/')
+    if 'retired' in m:
+        det = 'retired: ' + m['retired'][:200]
     needs = m.get('needs', '')[:220].replace('|', '/').replace('\n', ' ')
     print("| `%s` | %s | %s | %s |" % (name, m.get('property', ''), needs, det))
